@@ -7,6 +7,7 @@ import (
 	"fmt"
 	"math/rand"
 	"sort"
+	"strings"
 	"time"
 
 	sdkmath "cosmossdk.io/math"
@@ -66,6 +67,7 @@ type htlcEnv struct {
 	last     chain.M
 	dead     bool
 	initBal  int64
+	cfgStr   string // effective configuration, attached to every logged event (self-describing replays)
 }
 
 const (
@@ -107,6 +109,9 @@ func newHTLCEnv(fl *drv.Flags) *htlcEnv {
 		period = fl.CfgInt("period", 100)
 	}
 	maxLock := fl.CfgInt("maxlock", 2*50)
+	e.cfgStr = fmt.Sprintf("users=%d;initbal=%d;limit1=%d;limit2=%d;tbl2=%d;fee2=%d;period=%d;maxlock=%d;compress=1;tsnow=0",
+		len(e.users), e.initBal, fl.CfgInt("limit1", 4), fl.CfgInt("limit2", 5), fl.CfgInt("tbl2", 3), fl.CfgInt("fee2", 1),
+		period, maxLock)
 	e.c = chain.New(chain.Options{
 		Accounts: accts,
 		MutateGenesis: func(c *chain.Chain, gs simapp.GenesisState) {
@@ -514,6 +519,13 @@ func (e *htlcEnv) paramsMsg(ev chain.M) *htlctypes.MsgUpdateParams {
 // ---------------------------------------------------------------------------
 // executor
 
+// logEv writes a trace line; the event carries the effective driver
+// configuration so that a replay file cut from the trace is self-describing.
+func (e *htlcEnv) logEv(w *chain.TraceWriter, ev chain.M, st any) {
+	ev["cfg"] = e.cfgStr
+	w.Write(ev, st)
+}
+
 func withInBlock(st any, v bool) chain.M {
 	m := chain.CopyM(st.(chain.M))
 	m["inBlock"] = v
@@ -545,11 +557,11 @@ func (e *htlcEnv) runBlock(dt int64, pending []chain.M, w *chain.TraceWriter) bo
 	bb["dt"] = dt
 	if res.Halt {
 		bb["halt"], bb["ok"] = true, false
-		w.Write(bb, e.last)
+		e.logEv(w, bb, e.last)
 		e.dead = true
 		return false
 	}
-	w.Write(bb, res.BeginState)
+	e.logEv(w, bb, res.BeginState)
 	e.last = res.BeginState.(chain.M)
 	for i, ev := range pending {
 		r := res.Txs[i]
@@ -558,12 +570,12 @@ func (e *htlcEnv) runBlock(dt int64, pending []chain.M, w *chain.TraceWriter) bo
 		if st == nil {
 			st = res.BeginState
 		}
-		w.Write(ev, st)
+		e.logEv(w, ev, st)
 		e.last = st.(chain.M)
 	}
 	e.inBlock = false
 	end := withInBlock(res.EndState, false)
-	w.Write(htlcEvent("EndBlock"), end)
+	e.logEv(w, htlcEvent("EndBlock"), end)
 	e.last = end
 	return true
 }
@@ -605,7 +617,7 @@ func (e *htlcEnv) skip(n, dt int64, w *chain.TraceWriter) bool {
 				if res.Halt {
 					e.c.Project = proj
 					ev["halt"], ev["ok"] = true, false
-					w.Write(ev, e.last)
+					e.logEv(w, ev, e.last)
 					e.dead = true
 					return false
 				}
@@ -613,7 +625,7 @@ func (e *htlcEnv) skip(n, dt int64, w *chain.TraceWriter) bool {
 			e.c.Project = proj
 			e.inBlock = false
 			st := e.project(e.c.Ctx()).(chain.M)
-			w.Write(ev, st)
+			e.logEv(w, ev, st)
 			e.last = st
 			n -= k
 		}
@@ -637,18 +649,34 @@ func (e *htlcEnv) updateParams(ev chain.M, w *chain.TraceWriter) {
 	ev["ok"], ev["panic"] = ok, panicked
 	e.inBlock = false
 	st := e.project(e.c.Ctx()).(chain.M)
-	w.Write(ev, st)
+	e.logEv(w, ev, st)
 	e.last = st
 }
 
 func (e *htlcEnv) start(w *chain.TraceWriter) {
 	e.inBlock = false
 	e.last = e.project(e.c.Ctx()).(chain.M)
-	w.Write(htlcEvent("Init"), e.last)
+	e.logEv(w, htlcEvent("Init"), e.last)
 }
 
 // run executes one abstract behaviour on a fresh chain.
 func htlcRun(fl *drv.Flags, beh []chain.M, w *chain.TraceWriter, epilogue bool) {
+	if len(beh) > 0 {
+		if cs := chain.Str(beh[0], "cfg"); cs != "" {
+			// events cut from a recorded trace: real units, recorded chain configuration
+			nf := *fl
+			nf.Cfg = map[string]string{}
+			for k, v := range fl.Cfg {
+				nf.Cfg[k] = v
+			}
+			for _, kv := range strings.Split(cs, ";") {
+				if p := strings.SplitN(kv, "=", 2); len(p) == 2 {
+					nf.Cfg[p[0]] = p[1]
+				}
+			}
+			fl = &nf
+		}
+	}
 	e := newHTLCEnv(fl)
 	e.start(w)
 	var pending []chain.M
